@@ -158,6 +158,11 @@ def normalize_slice(idx, dim):
             if stop is not None and start is not None and stop < start:
                 stop = start
         elif step < 0:
+            if start < 0:
+                # ``indices`` reports a start before the first element as -1;
+                # kept literally that would mean the last element.  Nothing
+                # is selected.
+                return slice(0, 0, step)
             if start >= dim - 1:
                 start = None
             if stop < 0:
